@@ -187,7 +187,7 @@ func (c14) Run(plan interface{}, schedSeed uint64, replay []simrt.Choice, lenien
 	case "timeout":
 		term = simrt.TermTimeout
 	}
-	cfg := simrt.Config{Seed: schedSeed, Strategy: "uniform", ColdQueueLocks: true, EOFReadCostMs: p.EOFCostMs, Replay: replay, Lenient: lenient, KeepLog: keepLog}
+	cfg := simrt.Config{Seed: schedSeed, Strategy: "uniform", ColdQueueLocks: true, EOFReadCostMs: p.EOFCostMs, MaxSteps: 80000, Replay: replay, Lenient: lenient, KeepLog: keepLog}
 	got := runResp(cfg, respDelivery{Packets: pk, TermAt: p.K, TermKind: term, TermWithData: withData, Async: p.Async},
 		respClient{QueueSize: 100, ReadTimeoutS: p.ReadTimeoutS, DrainFor: drain, ReadSizes: c14ReadSizes(p.ReadSize, len(wire))})
 	out := got.Out
@@ -200,7 +200,12 @@ func (c14) Run(plan interface{}, schedSeed uint64, replay []simrt.Choice, lenien
 		v.Machinery = fmt.Sprintf("baseline run failed: %s %s %v %v", base.ConnErr, base.SendErr, base.Out.Crashes, errsOnly(base.Recs))
 		return v, out
 	}
+	where0 := fmt.Sprintf("%s after %d of %d wire bytes of %v", p.Kind, p.K, len(wire), p.Entries)
 	if out.Budget {
+		// the client keeps running without simulated time passing and without ever reporting the failure:
+		// for the consumer that is "no error" - its deadline can never fire while the reader spins
+		v.Budget = false
+		v.Violate("livelock", "no error after transport failure: the client spins", "%s: after %d scheduler steps the client is still busy and the consumer has received no error", where0, out.Steps)
 		return v, out
 	}
 	where := fmt.Sprintf("%s after %d of %d wire bytes (packets %v) of %v", p.Kind, p.K, len(wire), pktLens(pk), p.Entries)
